@@ -35,6 +35,11 @@ CHECKS = {
          "Held on the executions observed: 20 commands x rule-id family, random valid settings of the other linters' sections (hyphen/underscore), language-specific linters on other-language and unrecognised files, extension-case/tsx/jsx/shebang twins; evidence counts each relation.",
          "Trusted: the family table from the docs; which linters are language-specific (per-linter docs); file-placement and file-header are exempt from the unrecognised-type clause (they document non-source types).",
          "DESIGN.md section 4 C15"),
+
+ "C08": ("runtime monitoring: (a) permuted-argument runs, (b) PYTHONHASHSEED sweep on the real console script, (c) scripted histories (lint/edit/delete/add/touch) on one long-lived Linter/Orchestrator checked offline against a fresh-object specification recomputed in a pristine process, (d) sys.addaudithook mutation log + before/after tree snapshots + TMPDIR/HOME residue on real processes (sequential, --parallel, both DRY storage modes)",
+         "Held on the executions observed; evidence lists permutations, seeds, history lengths and operation mix, fresh-vs-reused comparisons, audit events by kind and pids seen.",
+         "Trusted: 'fresh object in a pristine forked process on the re-materialised disk state' as the specification of each call; messages compared after removing the project-root prefix.",
+         "DESIGN.md section 4 C08"),
 }
 PENDING = {}
 props = [json.loads(l) for l in open(os.path.join(HERE, "properties.jsonl"))]
